@@ -11,6 +11,9 @@ import Pyunicorn.Model.Window
   | `im=<months>` (indices_selected_months) | `Wc` (set_window(window()))
   | `N` (continue with ClimateData(obj.observable(), obj.grid, …))
   | `sh=<perms>` (shuffled_anomaly, one permutation per column, rows separated by `;`)
+  | `cs` (`__cache_state__()`: the counter `_mut_window`)
+
+`ry <T> <c>`: `int(T / c)` as evaluated in IEEE double (`rangeYearsF`), and `T // c`.
 
 Answer: the outputs of the operations joined by `|`.
 -/
@@ -46,6 +49,7 @@ def doOp (o : Obj) (tok : String) : String × Obj :=
     let (r, o') := o.setGlobal
     (if r then "raise:ValueError" else "ok", o')
   else if tok == "X" then ("ok", o.evict fun _ => false)
+  else if tok == "cs" then (toString o.ver, o)
   else if tok == "o" then (showMatS T N o.cur.obs, o)
   else if tok == "g" then
     (showRats o.cur.time ++ "~" ++ showRats o.cur.lat ++ "~" ++ showRats o.cur.lon, o)
@@ -106,6 +110,9 @@ def answer (toks : List String) : String :=
       match Obj.init full c.toNat! (fl == "1") w with
       | none => "raise:ValueError"
       | some o => join ("ok" :: runOps o ops) "|"
+  | ["ry", T, c] =>
+    if c.toNat! = 0 then "raise:ZeroDivisionError"
+    else s!"{rangeYearsF T.toNat! c.toNat!} {T.toNat! / c.toNat!}"
   | _ => "bad-request"
 
 def main : IO Unit := runDriver answer
